@@ -1020,11 +1020,11 @@ SVectorBase<R>& SVectorBase<R>::operator=(const SSVectorBase<S>& sv)
 
    Nonzero<R>* e = m_elem;
 
-   for(int i = 0; i < nnz; ++i)
+   for(int i = 0; i < sv.size(); ++i)
    {
       idx = sv.index(i);
 
-      if(sv.value(idx) != 0.0)
+      if(sv.value(i) != 0.0)
       {
          e->idx = idx;
          e->val = sv[idx];
